@@ -66,10 +66,17 @@ func c05rPart(t *testing.T, res *vout.Result, count *int) {
 		{"unrecoverable", logical.ErrUnsupportedPath, 0},
 		{"heals-after-2", errors.New("backend down"), 2},
 	}
+	// the lease is requested by a service token and by a batch token (leases of batch
+	// tokens are indexed and renewed along another path)
+	for _, requester := range []string{"service", "batch"} {
 	s0 := Build(t, Options{})
 	s0.Mount("rec/", "rec")
 	s0.WritePolicy("p05r", `path "rec/*" { capabilities = ["read"] }`)
-	tok := s0.CreateToken(s0.Root, map[string]interface{}{"policies": []string{"p05r"}, "ttl": "2h"})
+	tokData := map[string]interface{}{"policies": []string{"p05r"}, "ttl": "2h"}
+	if requester == "batch" {
+		tokData["type"] = "batch"
+	}
+	tok := s0.CreateToken(s0.Root, tokData)
 	lr := s0.Must(s0.Req(tok, logical.ReadOperation, "rec/lease/x", map[string]interface{}{}))
 	leaseID := lr.Secret.LeaseID
 	secret, _ := lr.Data["id"].(string)
@@ -97,7 +104,7 @@ func c05rPart(t *testing.T, res *vout.Result, count *int) {
 		} else {
 			s.Phys.FailAt("job", 1<<30)
 		}
-		art := map[string]interface{}{"variant": v.name, "fault_at_op": k}
+		art := map[string]interface{}{"variant": v.name, "fault_at_op": k, "requester": requester}
 		exhausted := false
 		for a := 1; a <= attemptsMax; a++ {
 			if v.healAfter > 0 && a > v.healAfter {
@@ -145,7 +152,7 @@ func c05rPart(t *testing.T, res *vout.Result, count *int) {
 				if s.Rec.RevokedCount(secret) == 0 {
 					res.Violate("c05:retry:lease-record-gone-without-revocation", fmt.Sprintf("%s, attempt %d: the lease record is gone but the backend never revoked the secret", v.name, a), art)
 				}
-				res.Distinct("nontrivial", fmt.Sprintf("R|%s|revoked-at-attempt-%d", v.name, a))
+				res.Distinct("nontrivial", fmt.Sprintf("R|%s|%s|revoked-at-attempt-%d", requester, v.name, a))
 				return s.Phys.TagCount("job")
 			}
 			_, _, irr := m.VerifTracked()
@@ -155,7 +162,22 @@ func c05rPart(t *testing.T, res *vout.Result, count *int) {
 				}
 			}
 			if exhausted {
-				res.Distinct("nontrivial", fmt.Sprintf("R|%s|irrevocable-at-attempt-%d", v.name, a))
+				res.Distinct("nontrivial", fmt.Sprintf("R|%s|%s|irrevocable-at-attempt-%d", requester, v.name, a))
+				// "irrevocable leases cannot be renewed": by the administrator and by the token that owns the lease
+				// (judged in executions without an injected storage fault only: C05 quantifies over crash
+				// points, not over storage errors; with the write of the mark itself failing - its error is
+				// ignored - the lease is irrevocable in memory only and stays renewable: observed, counted)
+				for who, rt := range map[string]string{"root token": s.Root, "requesting " + requester + " token": tok} {
+					if s.Phys.Failed() != nil {
+						res.Add("irrevocable_mark_under_storage_fault_not_judged", 1)
+						break
+					}
+					r, e := s.Req(rt, logical.UpdateOperation, "sys/leases/renew", map[string]interface{}{"lease_id": leaseID, "increment": 60})
+					if OK(r, e) && r != nil && r.Secret != nil {
+						recTxt, _ := rawRead(s, expirePhysKey(leaseID))
+						res.Violate("c05:retry:irrevocable-lease-renewed", fmt.Sprintf("%s, lease requested by a %s token, marked irrevocable at attempt %d: sys/leases/renew with the %s succeeded (ttl %v); stored record now: %s", v.name, requester, a, who, r.Secret.TTL, recTxt), art)
+					}
+				}
 				break
 			}
 		}
@@ -197,5 +219,6 @@ func c05rPart(t *testing.T, res *vout.Result, count *int) {
 			res.Add("evaluations", 1)
 			res.Add("fault_runs", 1)
 		}
+	}
 	}
 }
